@@ -465,9 +465,65 @@ def gen_case_shadow(rng, tier):
     return {'isa': isa, 'asm': asm, 'base': base, 'stmts': [f for f, _ in stmts], 'nvar': len(plan), 'shadow': True}
 
 
+def gen_case_history(rng, tier):
+    """definition order against invocation history: variant 0 is a special case of variant 1 (its operand sets are subsets:
+    one register instead of all, a register instead of register-or-number), so some statements are accepted by variant 1
+    only and others by both - and those must get variant 0 wherever they stand in the program"""
+    regs = rng.sample(REGS, rng.randint(2, 4))
+    de = rng.choice(['big', 'little'])
+    gz = (0, 65535)
+    consts = {'kfoo': rng.randint(0, 250)}
+    al = Alloc()
+    isa = {'description': 'c13h', 'general': {'address_size': 16, 'endian': de, 'registers': regs}, 'operand_sets': {},
+           'instructions': {}}
+    nops = rng.choice([1, 1, 2])
+    general, special = [], []
+    for pi in range(nops):
+        alts = []
+        for j, r in enumerate(regs):
+            cy, cm = mk_code(al, rng)
+            alts.append(({'type': 'register', 'register': r, 'bytecode': cy}, {'id': f'g{pi}r{j}', 't': 'register', 'r': r, 'code': cm}))
+        if rng.random() < 0.6:
+            alts.append(gen_alt(rng, al, 'numeric', regs, de, gz, f'g{pi}n', consts))
+        general.append(alts)
+        y0, m0 = rng.choice(alts[:len(regs)])
+        special.append([(y0, dict(m0, id=f's{pi}'))])
+    variants_y, variants_m = [], []
+    for vi, sets in enumerate([special, general]):
+        names, sets_m = [], []
+        for pi, alts in enumerate(sets):
+            sname = f'h{vi}_{pi}'
+            isa['operand_sets'][sname] = {'operand_values': {m['id']: y for y, m in alts}}
+            names.append(sname)
+            sets_m.append([m for _, m in alts])
+        opc = 0x20 + vi
+        variants_y.append({'bytecode': {'value': opc, 'size': 8}, 'operands': {'count': nops, 'operand_sets': {'list': names}}})
+        variants_m.append({'opcode': {'v': opc, 'n': 8, 'little': de == 'little'}, 'count': nops, 'sets': {'sets': sets_m}})
+    instr = dict(variants_y[0])
+    instr['variants'] = variants_y[1:]
+    isa['instructions']['tst'] = instr
+
+    def stmt(which):
+        forms, texts = [], []
+        for pi in range(nops):
+            pool = special[pi] if which == 'both' else [a for a in general[pi] if a[1].get('r') != special[pi][0][1]['r']] or general[pi]
+            y, m = rng.choice(pool)
+            f, t = form_for(rng, m, regs, consts)
+            forms.append(f)
+            texts.append(t)
+        return forms, gen.rcase(rng, 'tst') + ' ' + ', '.join(texts)
+    order = rng.choice([['general', 'both'], ['general', 'both', 'general', 'both'], ['both', 'general', 'both'], ['general', 'general', 'both']])
+    stmts = [stmt(w) for w in order]
+    asm = ''.join(f'{k} = {v}\n' for k, v in consts.items()) + ''.join(t + '\n' for _, t in stmts)
+    base = {'op': 'stmt', 'regs': regs, 'gs': gz[0], 'ge': gz[1], 'env': [[k, v] for k, v in consts.items()],
+            'variants': variants_m}
+    return {'isa': isa, 'asm': asm, 'base': base, 'stmts': [f for f, _ in stmts], 'nvar': 2, 'history': True}
+
+
 def generate(rng, tier):
     n = 600 if tier == 'quick' else 15000
-    return [gen_case(rng, tier) for _ in range(n)] + [gen_case_shadow(rng, tier) for _ in range(n // 6)]
+    return [gen_case(rng, tier) for _ in range(n)] + [gen_case_shadow(rng, tier) for _ in range(n // 6)] + \
+        [gen_case_history(rng, tier) for _ in range(n // 6)]
 
 
 def to_impl(case):
@@ -481,7 +537,8 @@ def to_model(case):
 
 
 def judge(case, ir, mrs):
-    tags = ['nvar=%d' % case['nvar'], 'stmts=%d' % len(case['stmts'])] + (['register-text-vs-earlier-numeric-variant'] if case.get('shadow') else []) + (['variants-share-one-operands-mapping'] if case.get('shared') else [])
+    tags = ['nvar=%d' % case['nvar'], 'stmts=%d' % len(case['stmts'])] + (['register-text-vs-earlier-numeric-variant'] if case.get('shadow') else []) + (['variants-share-one-operands-mapping'] if case.get('shared') else []) + \
+        (['special-then-general-variant-vs-statement-order'] if case.get('history') else [])
     det = f'asm={case["asm"]!r} model={[{k: m[k] for k in m if k != "sel"} for m in mrs]}'[:900]
     if ir['status'] == 'timeout':
         return {'verdict': Verdict.VIOLATION, 'detail': 'no termination; ' + det, 'tags': tags}
